@@ -9,14 +9,23 @@ func (cw *CodeWriter) flushPending() {
 		if ch == '\t' {
 			cw.writeIndent()
 		} else {
-			cw.Builder.WriteRune(ch)
+			cw.writeLayout(string(ch))
 		}
 	}
 	cw.clearPending()
 }
 
+// writeLayout writes white space or comment text, keeping the source map's
+// generated position in step with the output.
+func (cw *CodeWriter) writeLayout(s string) {
+	cw.Builder.WriteString(s)
+	if cw.Mapper != nil {
+		cw.Mapper.AdvanceString(s)
+	}
+}
+
 func (cw *CodeWriter) writeNewline() {
-	cw.Builder.WriteRune('\n')
+	cw.writeLayout("\n")
 }
 
 func (cw *CodeWriter) writeIndent() {
@@ -25,7 +34,7 @@ func (cw *CodeWriter) writeIndent() {
 		indent = "  " // default: 2 spaces
 	}
 	for i := 0; i < cw.IndentLevel; i++ {
-		cw.Builder.WriteString(indent)
+		cw.writeLayout(indent)
 	}
 }
 
